@@ -290,11 +290,11 @@ def gen(rng, tier):
                 for first in (["crot", k], ["cw", k, "w", "7a7a"]):
                     cases.append({"rl": 2, "max": mx, "rot0": rot0, "cur0": "6363",
                                   "ops": [first, ["w", "6464"], ["t", "€"], ["w", "65"], ["rot"]]})
-    for _ in range(700 if quick else 30000):
+    for _ in range(700 if quick else 7000):
         cases.append(gen_case(rng))
-    for _ in range(150 if quick else 6000):
+    for _ in range(150 if quick else 1500):
         cases.append(gen_case(rng, crash=False))
-    for _ in range(30 if quick else 1500):
+    for _ in range(30 if quick else 300):
         cases.append(gen_case(rng, big=True))
     return cases
 
